@@ -398,7 +398,13 @@ impl Harness {
             let case = v.get("case").cloned().unwrap_or(Value::Null);
             stats.class("regression-replays");
             stats.eval();
-            if let Err(msg) = guarded(|| replay(&case)) {
+            // regression cases run under the watchdog too (last slot)
+            let slot = self.watch.slots.len() - 1;
+            let wcase = case.clone();
+            self.watch.enter(slot, name, || wcase);
+            let res = guarded(|| replay(&case));
+            self.watch.leave(slot);
+            if let Err(msg) = res {
                 self.failure = Some((
                     name.to_string(),
                     Failure {
